@@ -53,14 +53,14 @@ func (c *DelegatedFunction) Name() string {
 //   - variantOperations: Variants operations manager.
 // Returns: A calculated function result.
 func (c *DelegatedFunction) Calculate(parameters []*variants.Variant,
-	variantOperations variants.IVariantOperations) (*variants.Variant, error) {
-	var result *variants.Variant
-	var err error
+	variantOperations variants.IVariantOperations) (result *variants.Variant, err error) {
 
 	// Capture calculation error
+	// (the results are named so that the recovery can set them)
 	defer func() {
 		if r := recover(); r != nil {
 			message := cconv.StringConverter.ToString(r)
+			result = nil
 			err = errors.NewExpressionError("", "CALC_FAILED", message, 0, 0)
 		}
 	}()
